@@ -130,7 +130,11 @@ pub fn gen_case(rng: &mut Rng, n: usize, real: bool, class: u64) -> Case {
         5 => { // repeated roots
             // (a quarter of the time a single n-fold root: exact data, so the closed forms meet their exactly-degenerate branches)
             let nb = if rng.chance(0.25) { 1 } else if rng.chance(0.2) { 2.min(n) } else { (n + 1) / 2 };
-            let base = separated_roots(rng, nb, real); let mut r = vec![]; while r.len() < n { for b in &base { if r.len() < n { r.push(*b); } } }
+            let mut base = separated_roots(rng, nb, real);
+            // (half of the n-fold roots are decimal fractions: the expanded coefficients are ROUNDED, so the discriminant-type
+            //  quantities of the closed forms are rounding dust of either sign instead of exact zeros)
+            if nb == 1 && base.len() == 1 && rng.bool() { base[0] = Cmplx::new(rng.nzint(70) as f64 / 10.0, if real || rng.bool() { 0.0 } else { rng.int(-30, 30) as f64 / 10.0 }); }
+            let mut r = vec![]; while r.len() < n { for b in &base { if r.len() < n { r.push(*b); } } }
             if real { let im: f64 = r.iter().map(|z| z.imag).sum(); if im != 0.0 { return gen_case(rng, n, real, 0); } }
             Case { coeffs: expand(&r, Cmplx::new(1.0, 0.0)), real, class: "repeated", known_roots: None } }
         6 => { // clusters 1e-3 apart
